@@ -40,6 +40,11 @@ CHECKS = {
         text="Macro.tla enumerates call-macro argument lists (40 segments incl. bracket groups, strings with commas/brackets, f-strings, keywords, invalid Python, comments/newlines in brackets x blanks x trailing comma x 8 hosts x followers), subprocess-macro bodies x 4 forms x paddings, and with-macro blocks (line trees up to 3-4 lines, nested indentation, blank/comment lines, 3 indentation units, nested in an if block, one-line form); the strings found in the real call_macro / enter_macro / subproc_* call must equal the model's expectation and the follower statement must parse as on its own.",
         note="Oracle is the model. Bounded by MaxArgs/MaxSegs/MaxLines per configuration. Two known findings (with! block starting with a comment; backtick/f-string in a subprocess-macro body).",
         ref="5/C07"),
+    "C09": dict(
+        technique="TLC-enumerated Python sub-alphabet strings + program layouts -> real tokenizer vs CPython tokenize; stream pairs trace-validated by TLC (TokAgree.tla)",
+        text="Every abstract string over the Python sub-alphabets (numbers, operator runs, string prefix/quote/body classes, indentation with spaces/tabs/form feeds/CR, comments, continuations) up to a bound, the C01 program space in several layouts, the corpus and its layout variants are tokenized by both tokenizers; for every text in the domain TLC validates the reduced stream pair against TokAgree.tla (types in order; text and coordinates of NAME/NUMBER/STRING/OP; structural tokens by sequence position).",
+        note="Domain (stated in DESIGN 5/C09): CPython's tokenize accepts without ERRORTOKEN, NUMBER tokens are valid literals, no '<>' , no xonsh-only lexeme, no f-string (C10). Four known findings (lone CR, unbalanced closer, continuation-only line, continued comment at EOF).",
+        ref="5/C09"),
     "C14": dict(
         technique="TLC enumeration of statement sequences from StmtSeq.tla -> composition law checked on the real parser; tree pairs (whole vs shifted parts) trace-validated by TLC (AstEq.tla)",
         text="StmtSeq.tla lists 55 complete statement forms (Python simple/compound, multi-line tokens, comment/blank lines, every xonsh statement form incl. empty macros and path-literal concatenations); TLC enumerates every sequence of up to 2 (all kinds) / 3 (xonsh-heavy subset) kinds in quick, 3 / 4 in thorough; the body of the concatenation must equal the bodies of the parts with shifted line numbers, positions included.",
